@@ -109,6 +109,34 @@ func init() {
 	reg("IteI64", func(fr *frame, args []value) value {
 		return mkVal(types.Int64, Ite(termOf(args[0]), termOf(args[1]), termOf(args[2])))
 	})
+	reg("Threads", func(fr *frame, args []value) value {
+		var watch []string
+		for _, w := range args[1].([]value) {
+			watch = append(watch, w.(string))
+		}
+		ex.threads = startSched(int(asInt64(args[0])), watch)
+		return nil
+	})
+	reg("Quiesce", func(fr *frame, args []value) value {
+		s := ex.threads
+		if s == nil {
+			return nil
+		}
+		// run the other threads until none of them can make progress
+		me := s.cur
+		s.block("quiesce", func() bool {
+			for _, t := range s.threads {
+				if t == me || t.done {
+					continue
+				}
+				if t.blocked == nil || t.blocked() {
+					return false
+				}
+			}
+			return true
+		})
+		return nil
+	})
 	reg("Stop", func(fr *frame, args []value) value {
 		ex.Cover("stop:"+args[0].(string), BoolT(true))
 		panic(pathEnd{"stop: " + args[0].(string)})
